@@ -84,6 +84,7 @@ func (c05) Exec(op string) string {
 			if err != nil {
 				return "procerr " + err.Error()
 			}
+			defer hx.DropScopes("service." + p.Name() + ".") // runs after the Stop registered below
 			defer p.Stop()
 			cc, err := net.Dial("tcp", p.Address())
 			if err != nil {
@@ -219,6 +220,7 @@ func (c05) Exec(op string) string {
 			if err != nil {
 				return "procerr"
 			}
+			defer hx.DropScopes("service." + p.Name() + ".") // runs after the Stop registered below
 			defer p.Stop()
 			cc, err := net.Dial("tcp", p.Address())
 			if err != nil {
@@ -281,6 +283,7 @@ func (c05) Exec(op string) string {
 			if err != nil {
 				return "procerr"
 			}
+			defer hx.DropScopes("service." + p.Name() + ".") // runs after the Stop registered below
 			defer p.Stop()
 			// backend: reads a 1-byte id then streams stream(seed,'B'+id) while reading the client's stream
 			go func() {
